@@ -147,15 +147,20 @@ Proof.
       destruct Hb' as [->|[->|[->| ->]]];
         (apply (IND 4%N vals cap 4 PLinear); auto; cbn in *; lia).
     + destruct Hk as [Hb ->]. assert (Hb' : b = 1 \/ b = 2 \/ b = 3) by lia.
-      destruct Hb' as [->|[->| ->]];
-        (apply (IND _ vals cap _ PLinear); auto; cbn in *; lia).
+      destruct Hb' as [->|[->| ->]].
+      * apply (IND 1%N vals cap 1 PLinear); auto; cbn in *; lia.
+      * apply (IND 2%N vals cap 2 PLinear); auto; cbn in *; lia.
+      * apply (IND 3%N vals cap 3 PLinear); auto; cbn in *; lia.
   - (* hash *)
     destruct Cp as (Hs & Hb & -> & Hd & Hcap & Hr). cbn [ckind] in Hs. subst kd.
     assert (Hb' : b = 5 \/ b = 6 \/ b = 7 \/ b = 8) by lia.
-    destruct Hb' as [->|[->|[->| ->]]];
-      (apply (IND _ vals cap _ PHash); auto; cbn in *; lia).
+    destruct Hb' as [->|[->|[->| ->]]].
+    + apply (IND 5%N vals cap 5 PHash); auto; cbn in *; lia.
+    + apply (IND 6%N vals cap 6 PHash); auto; cbn in *; lia.
+    + apply (IND 7%N vals cap 7 PHash); auto; cbn in *; lia.
+    + apply (IND 8%N vals cap 8 PHash); auto; cbn in *; lia.
   - (* direct *)
-    destruct Cp as (Hk & Hb & Hd).
+    destruct Cp as (Hk & Hb & Hd). cbn [gbits] in Hd.
     assert (E : spec_layout kd (Z.to_N g) (Z.to_N (b mod 256)) = LDirect (Z.to_N g)).
     { unfold spec_layout. destruct kd; cbn [ckind] in Hk.
       - destruct (N.eqb_spec (Z.to_N (b mod 256)) 0); [lia|].
@@ -170,5 +175,5 @@ Proof.
     assert (Ew : Z.to_N g = wbits d) by (unfold wbits; lia). rewrite Ew.
     rewrite (wf_spec_size d W), Nat.eqb_refl. cbn [negb run_flat].
     unfold pabs, didx. cbn [cpal cdata]. rewrite (vpl_nz d W). unfold Proofs.C11.abs.
-    f_equal. apply map_ext. intros k. reflexivity.
+    reflexivity.
 Qed.
